@@ -5,6 +5,7 @@ package channels
 import (
 	"context"
 
+	ch "github.com/WuKongIM/WuKongIM/pkg/channel"
 	channelstore "github.com/WuKongIM/WuKongIM/pkg/channel/store"
 )
 
@@ -13,4 +14,31 @@ import (
 func VerifReadLocalCommitted(ctx context.Context, stores channelstore.Factory, read CommittedRead, retentionThroughSeq uint64, minISR int) (channelstore.ReadCommittedResult, error) {
 	s := &Service{store: stores}
 	return s.readLocalCommitted(ctx, read, retentionThroughSeq, minISR)
+}
+
+type verifMetaSource struct {
+	fn func(ch.ChannelID) (ch.Meta, error)
+}
+
+func (m verifMetaSource) ResolveChannelMeta(_ context.Context, id ch.ChannelID) (ch.Meta, error) {
+	return m.fn(id)
+}
+
+// VerifForwardCommittedReads runs the leader-side handler of a forwarded
+// committed read (handleForwardCommittedReads) on a bare service that owns a
+// store factory, a local node id and a metadata source.
+func VerifForwardCommittedReads(ctx context.Context, stores channelstore.Factory, local ch.NodeID,
+	meta func(ch.ChannelID) (ch.Meta, error), req CommittedReadsRequest) (CommittedReadsResponse, error) {
+	s := &Service{store: stores, localNode: local, metaSource: verifMetaSource{fn: meta}}
+	return s.handleForwardCommittedReads(ctx, req)
+}
+
+// VerifRoundTripCommittedReadsResponse sends a successful response through the
+// RPC codec exactly as the transport does (encode on the leader, decode on the origin).
+func VerifRoundTripCommittedReadsResponse(resp CommittedReadsResponse) (CommittedReadsResponse, error) {
+	data, err := encodeRPCResult(kindCommittedReadsResponse, resp, nil)
+	if err != nil {
+		return CommittedReadsResponse{}, err
+	}
+	return decodeCommittedReadsResponse(data)
 }
